@@ -23,13 +23,18 @@ import (
 
 var tokens = []string{"(*", "*)", "(", "*", ")", "\"", "\n", " ", "x", "é"}
 
+// further tokens, used alone and next to a few of the others: format verbs, tabs, backslashes
+var extraTokens = []string{"%", "%d", "%s", "%!", "\t", "\\", "'", "\r"}
+var extraPartners = []string{"\"", "(*", "x", " "}
+
 type Text struct {
 	Pos string `json:"pos"`
 	T   string `json:"t"`
 }
 
 var positions = []string{"pkgdoc", "funcdoc", "structdoc", "constdoc", "consttrail", "strlit", "rawstrlit", "panicmsg", "logprintf", "lograw", "fmtprintln",
-	"strconst", "strconcat", "panicconst", "panicconcat", "logconst"}
+	"strconst", "strconcat", "panicconst", "panicconcat", "logconst",
+	"strlit_in_branch", "strlit_in_call_arg", "log_last_in_if", "log_last_in_else", "log_last_in_range", "log_last_in_go", "log_only", "log_last_in_closure"}
 
 func lineComment(t string) string {
 	var sb strings.Builder
@@ -66,6 +71,22 @@ func source(p Text) string {
 		return "package q\n\nimport \"log\"\n\nfunc F() uint64 {\n\tlog.Printf(" + strconv.Quote(t) + ")\n\treturn 1\n}\n\nfunc G() uint64 {\n\treturn 2\n}\n"
 	case "lograw":
 		return "package q\n\nimport \"log\"\n\nfunc F() uint64 {\n\tlog.Printf(`" + t + "`)\n\treturn 1\n}\n\nfunc G() uint64 {\n\treturn 2\n}\n"
+	case "strlit_in_branch":
+		return "package q\n\nfunc F(b bool) string {\n\tif b {\n\t\treturn " + strconv.Quote(t) + "\n\t}\n\treturn \"y\"\n}\n\nfunc G() uint64 {\n\treturn 2\n}\n"
+	case "strlit_in_call_arg":
+		return "package q\n\nfunc id(s string, n uint64) string {\n\treturn s\n}\n\nfunc F(b bool) string {\n\tr := id(" + strconv.Quote(t) + ", 1)\n\treturn r\n}\n\nfunc G() uint64 {\n\treturn 2\n}\n"
+	case "log_last_in_if":
+		return "package q\n\nimport \"log\"\n\nfunc F(b bool) uint64 {\n\tvar n uint64 = 0\n\tif b {\n\t\tn = 1\n\t\tlog.Printf(" + strconv.Quote(t) + ")\n\t}\n\treturn n\n}\n\nfunc G() uint64 {\n\treturn 2\n}\n"
+	case "log_last_in_else":
+		return "package q\n\nimport \"log\"\n\nfunc F(b bool) uint64 {\n\tvar n uint64 = 0\n\tif b {\n\t\tn = 1\n\t} else {\n\t\tlog.Printf(" + strconv.Quote(t) + ")\n\t}\n\tn = n + 1\n\treturn n\n}\n\nfunc G() uint64 {\n\treturn 2\n}\n"
+	case "log_last_in_range":
+		return "package q\n\nimport \"log\"\n\nfunc F(xs []uint64) uint64 {\n\tvar n uint64 = 0\n\tfor _, x := range xs {\n\t\tn = n + x\n\t\tlog.Printf(" + strconv.Quote(t) + ")\n\t}\n\treturn n\n}\n\nfunc G() uint64 {\n\treturn 2\n}\n"
+	case "log_last_in_go":
+		return "package q\n\nimport \"log\"\n\nfunc F() uint64 {\n\tgo func() {\n\t\tlog.Printf(" + strconv.Quote(t) + ")\n\t}()\n\treturn 1\n}\n\nfunc G() uint64 {\n\treturn 2\n}\n"
+	case "log_only":
+		return "package q\n\nimport \"log\"\n\nfunc F() {\n\tlog.Printf(" + strconv.Quote(t) + ")\n}\n\nfunc G() uint64 {\n\treturn 2\n}\n"
+	case "log_last_in_closure":
+		return "package q\n\nimport \"log\"\n\nfunc F() uint64 {\n\tf := func() {\n\t\tlog.Printf(" + strconv.Quote(t) + ")\n\t}\n\tf()\n\treturn 1\n}\n\nfunc G() uint64 {\n\treturn 2\n}\n"
 	case "strconst":
 		return "package q\n\nconst M = " + strconv.Quote(t) + "\n\nfunc F() string {\n\treturn M\n}\n\nfunc G() uint64 {\n\treturn 2\n}\n"
 	case "strconcat":
@@ -97,6 +118,12 @@ func strings_(maxLen int) []string {
 		}
 	}
 	rec("", 0)
+	for _, e := range extraTokens {
+		out = append(out, e, e+e)
+		for _, q := range extraPartners {
+			out = append(out, e+q, q+e)
+		}
+	}
 	return out
 }
 
@@ -172,8 +199,8 @@ func partText(tier, goose, work string, acc *ev.Acc, only *Text) {
 					continue
 				}
 				if pos == "rawstrlit" || pos == "lograw" {
-					if strings.Contains(t, "`") {
-						continue
+					if strings.Contains(t, "`") || strings.Contains(t, "\r") {
+						continue // Go itself drops carriage returns from raw string literals
 					}
 				}
 				add(Text{pos, t})
@@ -202,6 +229,7 @@ func partText(tier, goose, work string, acc *ev.Acc, only *Text) {
 		}
 	}
 	neutralShape := map[string]shape{}
+	brokenPos := map[string]bool{}
 	for pos, name := range neutral {
 		b, err := os.ReadFile(filepath.Join(outDir, "c05mod", name+".v"))
 		if err != nil {
@@ -210,12 +238,21 @@ func partText(tier, goose, work string, acc *ev.Acc, only *Text) {
 		}
 		f, perr := gl.ParseFile(string(b))
 		if perr != nil || len(f.Bad) > 0 {
-			fmt.Fprintln(os.Stderr, "harness error: neutral package for position", pos, "does not parse:", perr, f.Bad)
-			os.Exit(3)
+			// even the harmless text gives ill-formed output at this position
+			bad := fmt.Sprint(perr)
+			if perr == nil {
+				bad = f.Bad[0].Err + "\n" + f.Bad[0].Raw
+			}
+			acc.Violate(ev.Violation{Key: fmt.Sprintf("C05/text/%s/parse/evenq/%q", pos, "x"), Msg: fmt.Sprintf("text %q at position %s: the emitted file does not parse: %s\n--- Go source ---\n%s", "x", pos, bad, source(Text{pos, "x"})), Replay: map[string]any{"part": "text", "text": Text{pos, "x"}}})
+			brokenPos[pos] = true
+			continue
 		}
 		neutralShape[pos] = shapeOf(f)
 	}
 	for _, it := range items {
+		if brokenPos[it.p.Pos] {
+			continue
+		}
 		acc.Add("evaluations", 1)
 		acc.Add("text_packages", 1)
 		acc.Set("nontrivial", it.p.Pos+"/"+it.p.T)
@@ -252,7 +289,7 @@ func partText(tier, goose, work string, acc *ev.Acc, only *Text) {
 		for name, wb := range want.bodies {
 			gb := got.bodies[name]
 			switch it.p.Pos {
-			case "strlit", "rawstrlit", "strconst", "strconcat", "panicconst", "panicconcat", "logconst":
+			case "strlit", "rawstrlit", "strconst", "strconcat", "panicconst", "panicconcat", "logconst", "strlit_in_branch", "strlit_in_call_arg":
 				wb = strings.ReplaceAll(wb, `#(str"x")`, fmt.Sprintf("#(str%q)", it.p.T))
 			case "panicmsg":
 				wb = strings.ReplaceAll(wb, `"x"`, fmt.Sprintf("%q", it.p.T))
@@ -427,7 +464,7 @@ func main() {
 	os.RemoveAll(work)
 	os.Exit(acc.Done(ev.Finish{
 		Prop: "C05", Tier: *tier, Level: "exploration", Start: start,
-		Rule:        "(a) every string of <=2 (thorough <=3) tokens over {(*, *), (, *, ), \", newline, space, x, é} at 16 text positions (package / function / struct / constant doc comments, trailing constant comment, interpreted and raw string literals, string constants, a concatenation operand, panic message as a literal / a named constant / a constant concatenation, log.Printf with interpreted, raw and constant strings, fmt.Println), one package each, translated by the real goose; the file must lex under Coq's rules (nested comments, strings inside comments), Coq must see the same sentence list as with neutral text, and every body must equal the neutral body up to the literal itself (a rejected package is acceptable). (b) every parent/child/side nesting of the 10 arithmetic, 6 comparison and 2 boolean operators plus unary, call-argument, index, deref, field, conversion, store, condition, struct-literal, slice-bound, tuple and append contexts (thorough: + depth 3 over 5 non-associative operators), at two statement positions, read with Coq's precedences and interpreted: the value must equal Go's on 28 input vectors. (c) a fixture with an interface conversion, comments and constants needed at three call sites, comments and constants under all 8 flag combinations: the same list of definitions (names, order, multiplicity) with identical bodies",
+		Rule:        "(a) every string of <=2 (thorough <=3) tokens over {(*, *), (, *, ), \", newline, space, x, é} plus %, %d, %s, %!, tab, backslash, ', CR alone, doubled and next to \", (*, x, space at 24 text positions (a string literal in a one-line if-branch and as a call argument, a log call as the last statement of an if-branch / else-branch / range body / goroutine / closure / whole function, package / function / struct / constant doc comments, trailing constant comment, interpreted and raw string literals, string constants, a concatenation operand, panic message as a literal / a named constant / a constant concatenation, log.Printf with interpreted, raw and constant strings, fmt.Println), one package each, translated by the real goose; the file must lex under Coq's rules (nested comments, strings inside comments), Coq must see the same sentence list as with neutral text, and every body must equal the neutral body up to the literal itself (a rejected package is acceptable). (b) every parent/child/side nesting of the 10 arithmetic, 6 comparison and 2 boolean operators plus unary, call-argument, index, deref, field, conversion, store, condition, struct-literal, slice-bound, tuple and append contexts (thorough: + depth 3 over 5 non-associative operators), at two statement positions, read with Coq's precedences and interpreted: the value must equal Go's on 28 input vectors. (c) a fixture with an interface conversion, comments and constants needed at three call sites, comments and constants under all 8 flag combinations: the same list of definitions (names, order, multiplicity) with identical bodies",
 		Assumptions: []string{"Coq's lexer and the levels of the GooseLang notations are modelled by mc/gl (standard levels for * + = < && || ~, level 35 for the backquoted infixes and shifts)", "nesting is judged by value on boundary inputs, not by tree isomorphism with the translator's internal tree"},
 		Extra:       map[string]any{"distinct_nontrivial": len(acc.Sets["nontrivial"])},
 	}))
